@@ -21,30 +21,35 @@ Open Scope list_scope.
    the attribute of the same name: C18_sax_style_precedence) ---- *)
 Theorem C18_wsvg_roundtrip : forall c ds attrs svgattrs size,
     length attrs = length ds ->
-    (* svg2paths *)
-    svg2paths_read (wsvg_file ds attrs svgattrs size) = Some (ds, written ds attrs)
-    (* Document(file).paths() *)
+    (* svg2paths: when no path is the empty one (svgwrite leaves the d attribute
+       of an empty path out, and svg2paths reads el['d']:
+       C18_wsvg_empty_path_refuted) *)
+    (noempty ds ->
+     svg2paths_read (wsvg_file ds attrs svgattrs size) = Some (ds, written ds attrs))
+    (* Document(file).paths(): every list, the empty path included *)
     /\ doc_read (wsvg_file ds attrs svgattrs size) = (ds, written ds attrs)
     (* SaxDocument(file) *)
-    /\ (nostyle svgattrs -> nostyle size -> Forall nostyle attrs ->
+    /\ (noempty ds -> nostyle svgattrs -> nostyle size -> Forall nostyle attrs ->
         exists rv, sax_read c (wsvg_file ds attrs svgattrs size)
-                   = Some (ds, map (update rv) (written ds attrs))
+                   = Some (ds, map (fun w => sax_path_values (update rv w)) (written ds attrs))
                    /\ sax_root_values c (wsvg_file ds attrs svgattrs size) = rv
                    /\ forall k v, lookup k svgattrs = Some v -> lookup k rv = Some v)
     (* attributes are kept *)
     /\ length (written ds attrs) = length ds
     /\ (forall i a w k v, nth_error attrs i = Some a -> nth_error (written ds attrs) i = Some w ->
                           k <> "d" -> lookup k a = Some v ->
-                          lookup k w = Some v /\ forall rv, lookup k (update rv w) = Some v).
+                          lookup k w = Some v
+                          /\ forall rv, lookup k (sax_path_values (update rv w)) = Some v).
 Proof.
   intros c ds attrs sa size H. split; [|split; [|split; [|split]]].
-  - apply wsvg_svg2paths, H.
+  - intros Hn. apply wsvg_svg2paths; assumption.
   - apply wsvg_document, H.
-  - intros H1 H2 H3. apply wsvg_sax; assumption.
+  - intros H0 H1 H2 H3. apply wsvg_sax; assumption.
   - apply written_length, H.
   - intros i a w k v Ha Hw Hk Hv.
     assert (E : lookup k w = Some v) by (exact (written_keeps ds attrs i a w k v Ha Hw Hk Hv)).
-    split; [exact E|]. intros rv. apply lookup_update_other. exact E.
+    split; [exact E|]. intros rv. rewrite sax_path_values_keeps by exact Hk.
+    apply lookup_update_other. exact E.
 Qed.
 
 Theorem C18_wsvg_svg_attributes : forall ds attrs svgattrs size k v,
@@ -62,10 +67,11 @@ Section PathLevel.
 
   Theorem C18_wsvg_roundtrip_partial : forall c ps attrs svgattrs size,
       length attrs = length ps ->
-      option_map (fun r => map parse (fst r))
-                 (svg2paths_read (wsvg_file (map dstr ps) attrs svgattrs size)) = Some ps
+      (noempty (map dstr ps) ->
+       option_map (fun r => map parse (fst r))
+                  (svg2paths_read (wsvg_file (map dstr ps) attrs svgattrs size)) = Some ps)
       /\ map parse (fst (doc_read (wsvg_file (map dstr ps) attrs svgattrs size))) = ps
-      /\ (nostyle svgattrs -> nostyle size -> Forall nostyle attrs ->
+      /\ (noempty (map dstr ps) -> nostyle svgattrs -> nostyle size -> Forall nostyle attrs ->
           option_map (fun r => map parse (fst r))
                      (sax_read c (wsvg_file (map dstr ps) attrs svgattrs size)) = Some ps).
   Proof.
@@ -74,12 +80,30 @@ Section PathLevel.
     assert (E : map parse (map dstr ps) = ps).
     { rewrite map_map. erewrite map_ext; [apply map_id|]. exact parse_d. }
     split; [|split].
-    - rewrite (wsvg_svg2paths _ _ sa size H'). cbn [option_map fst]. rewrite E. reflexivity.
+    - intros Hn. rewrite (wsvg_svg2paths _ _ sa size H' Hn). cbn [option_map fst]. rewrite E. reflexivity.
     - rewrite (wsvg_document _ _ sa size H'). cbn [fst]. exact E.
-    - intros H1 H2 H3. destruct (wsvg_sax c _ _ sa size H' H1 H2 H3) as (rv & Hr & _).
+    - intros Hn H1 H2 H3. destruct (wsvg_sax c _ _ sa size H' Hn H1 H2 H3) as (rv & Hr & _).
       rewrite Hr. cbn [option_map fst]. rewrite E. reflexivity.
   Qed.
 End PathLevel.
+
+(* the empty path: svgwrite writes <path id=.../> without d; svg2paths raises
+   KeyError('d') on the whole file (finding svg2paths-path-without-d-keyerror),
+   Document and SaxDocument return the three paths *)
+Example C18_wsvg_empty_path_refuted :
+  let f := wsvg_file ["M 0,0 L 1,1"; ""; "M 2,2 L 3,3"] [[("id", "a")]; [("id", "b")]; [("id", "c")]] [] [] in
+  svg2paths_read f = None
+  /\ fst (doc_read f) = ["M 0,0 L 1,1"; ""; "M 2,2 L 3,3"]
+  /\ option_map fst (sax_read pinned f) = Some ["M 0,0 L 1,1"; ""; "M 2,2 L 3,3"].
+Proof. vm_compute. repeat split. Qed.
+(* added to a Document, the empty path is written d="" and read back by all three *)
+Example C18_doc_empty_path :
+  let t := run repaired [OpAddPath "M 0,0 L 1,1" [("id", "a")] []; OpAddPath "" [("id", "b")] [];
+                         OpAddPath "M 2,2 L 3,3" [("id", "c")] []] (empty_document repaired) in
+  option_map fst (svg2paths_read (et_write repaired t)) = Some ["M 0,0 L 1,1"; ""; "M 2,2 L 3,3"]
+  /\ fst (doc_read (et_write repaired t)) = ["M 0,0 L 1,1"; ""; "M 2,2 L 3,3"]
+  /\ option_map fst (sax_read repaired (et_write repaired t)) = Some ["M 0,0 L 1,1"; ""; "M 2,2 L 3,3"].
+Proof. vm_compute. repeat split. Qed.
 
 (* ---- the style attribute in SaxDocument ---- *)
 (* pinned: a trailing semicolon makes the constructor raise (IndexError) *)
